@@ -38,6 +38,9 @@ TIERS = {
 }
 
 
+# pipelines consumed through a worker pool, iterated under line-level schedules
+SCHED = {'quick': 1500, 'thorough': 40000}
+
 FAULT_TIERS = {
     'quick': {'bfs': [('fault-staged-len2', cfg(2, 4, family='fault'), 14000)],
               'random': {'count': 2500, 'depths': (3, 4, 5)}},
@@ -106,6 +109,27 @@ def run(prop, tier, family='core', judge=None):
         obs = pipeline.observe_all([r['prog'] for r in recs])
         records = [{'id': i + 1, 'prog': r['prog'], 'obs': o}
                    for i, (r, o) in enumerate(zip(recs, obs))]
+        if prop == 'C01':
+            from . import randprog
+            sp = randprog.shared_programs(common.seed(), SCHED[tier])
+            so = pipeline.observe_sched_all(sp, common.seed())
+            st_ = {'programs': len(sp), 'scheduled': 0, 'aborted': 0, 'skipped': 0, 'abort_reasons': {},
+                   'context_switches': 0, 'scheduling_decisions': 0, 'thread_errors': 0,
+                   'granularity': 'every source line of lazy_dataset/core.py executed by any '
+                                  'thread while a pool is alive + every queue / future / '
+                                  'thread operation of parallel_utils; 2 seeded random '
+                                  'schedules per program (first and second iteration)'}
+            for p, (o, inf) in zip(sp, so):
+                k = {'ok': 'scheduled'}.get(inf['sched'], inf['sched'])
+                st_[k] += 1
+                if inf['sched'] == 'aborted':
+                    st_['abort_reasons'][inf['why']] = st_['abort_reasons'].get(inf['why'], 0) + 1
+                st_['context_switches'] += inf.get('switches', 0)
+                st_['scheduling_decisions'] += inf.get('decisions', 0)
+                st_['thread_errors'] += len(inf.get('thread_errors', ()))
+                recs.append({'prog': p, 'mv': None, 'sched': inf['sched'], 'seed': inf.get('seed')})
+                records.append({'id': len(records) + 1, 'prog': p, 'obs': o})
+            res.coverage['worker_pool_under_line_level_schedules'] = st_
         verdicts, st = pipeline.validate(records)
         res.add_tlc(st)
     except tlc.TlcError as e:
@@ -140,7 +164,10 @@ def run(prop, tier, family='core', judge=None):
                 f'{clause}: {pipeline.short(rec["prog"])}',
                 {'family': 'pipeline', 'prog': rec['prog'], 'obs': rec['obs'],
                  'verdict': [status, clause], 'model_verdict': mv,
-                 'how': 'real observation judged by TLC (PipelineTrace.tla)'})
+                 'sched': r.get('sched'), 'sched_seed': r.get('seed'),
+                 'how': 'real observation judged by TLC (PipelineTrace.tla)'
+                        + ('; it1 / it2 taken under seeded line-level schedules '
+                           '(harness/schedobs.py)' if r.get('sched') == 'ok' else '')})
             if len(res.violations) >= 25:
                 break
         elif mv and mv[0] == 'viol':
@@ -173,7 +200,12 @@ def replay(prop, path):
     with open(path) as f:
         rp = json.load(f)
     from .observe import observe
-    o = observe(rp['prog'])
+    if rp.get('sched_seed') is not None:      # iterations under the recorded schedules
+        from .schedobs import observe_sched
+        o, inf = observe_sched(rp['prog'], rp['sched_seed'])
+        print('schedule:', inf)
+    else:
+        o = observe(rp['prog'])
     v, _ = pipeline.validate([{'id': 1, 'prog': rp['prog'], 'obs': o}])
     print('program :', pipeline.short(rp['prog']))
     print('verdict :', v[1][prop], ' conformance:', v[1]['conf'])
